@@ -621,7 +621,18 @@ def judge(ops, il, W, rc=0, err=""):
 
 def run_batch(ctx, exe, label, W, cases, small_exe=None):
     """cases: list of (ops, tag).  Runs implementation, model and oracle; returns list of failures
-    (kind, case index, op index, message)"""
+    (kind, case index, op index, message).  A case that kills the driver is reported and the rest of the batch is
+    run in a fresh process."""
+    fails, verdicts = run_batch1(ctx, exe, label, W, cases, small_exe)
+    while len(verdicts) < len(cases):
+        done = len(verdicts)
+        f2, v2 = run_batch1(ctx, exe, label, W, cases[done:], small_exe)
+        fails += [(k, ci + done, oi, msg) for (k, ci, oi, msg) in f2]
+        verdicts += v2
+    return fails, verdicts
+
+
+def run_batch1(ctx, exe, label, W, cases, small_exe=None):
     text = "".join("\n".join(ops) + "\n" for ops, _ in cases)
     il, rc, err = vcheck.run_impl(exe, [], text)
     sl = None
